@@ -876,11 +876,8 @@ class TrialDataManager(object):
 
         values_mask = np.zeros((self.get_n_values(),), dtype=np.bool_)
 
-        def make_values_mask(src_idx):
-            global values_mask
+        for src_idx in src_idxs:
             values_mask |= tdm_src_idxs == src_idx
-
-        np.vectorize(make_values_mask)(src_idxs)
 
         return values_mask
 
